@@ -64,6 +64,30 @@ Definition check_cands (P : fparams) (im : image) (t : option Q) (pos known : li
   else if negb (desc_masses out) then 4%N
   else 0%N.
 
+(* degenerate inputs: two maxima that survive the range filter are closer than
+   separation and equally bright (saturated plateaus).  Which one drop_close keeps
+   is then decided by comparing FLOAT sums of rescaled coordinates (C06: tie rule),
+   so model and implementation may keep different members of the pair. *)
+Definition has_tie (P : fparams) (im : image) (t : option Q) (pos known : list pt) : bool :=
+  let sh := shape im in
+  match slice_box sh (slr P) pos, t with
+  | Some bx, Some t0 =>
+    let f := mslice P im bx pos (background P pos known) in
+    let ranged :=
+      filter (fun a => existsb (fun p => d2w (mw (fmet P)) p a <=? mR2 (fmet P)) pos)
+        (filter (fun a => negb (near_edge sh (map (fun _ => rad P) sh) (if fixed P then a else vsub a (map fst bx))))
+           (filter (is_peak f (map (fun _ => dil P) sh) t0) (box_pixels bx))) in
+    existsb (fun a => existsb (fun b => negb (eqb_pt a b) && (f a =? f b) && inside_b (fk P) (sepk P) a b) ranged) ranged
+  | _, _ => false
+  end.
+
+(* check_cands, with model differences on degenerate inputs reported as 20 *)
+Definition check_cands_t (P : fparams) (im : image) (t : option Q) (pos known : list pt) (out : list cm) : N :=
+  match check_cands P im t pos known out with
+  | 1%N | 2%N | 3%N => if has_tie P im t pos known then 20%N else check_cands P im t pos known out
+  | c => c
+  end.
+
 (* number of candidates of the model (coverage statistics) *)
 Definition n_cands (P : fparams) (im : image) (t : option Q) (pos known : list pt) : N :=
   N.of_nat (length (relocate_cands P im t pos known)).
